@@ -2,7 +2,8 @@
   C14 — aggregates over ranges: executable model.
 
   Anchors (/repo/src/pycel):
-    excellib.py:46-57      _numerics        -> `firstErr`, `nums`, `numerics`
+    excellib.py:46-57      _numerics        -> `isErrCell`, `firstErr`, `nums`, `numerics`
+    excelutil.py:25        ERROR_CODES      -> `Gen.aggErrorCodes` (regenerated from the live frozenset on every run)
     excellib.py:319-326    sum_             -> `sum_`
     excellib.py:364-398    sumproduct       -> `sumproduct`
     lib/stats.py:62-73     average          -> `average`
@@ -21,6 +22,7 @@
 import Pycel.Model.Value
 import Pycel.Model.Proto
 import Pycel.Generated.Subtotal
+import Pycel.Generated.AggErrors
 namespace Pycel.Agg
 open Pycel
 
@@ -32,22 +34,29 @@ def argCells : Arg → List Val
 /-- `tuple(flatten(args))` -/
 def cellsOf (args : List Arg) : List Val := args.flatMap argCells
 
-def errOf? : Val → Option Err
-  | .err e => some e
-  | _ => none
+/-- the live `ERROR_CODES` as character lists -/
+def errorTexts : List (List Char) := Gen.aggErrorCodes.map String.toList
+
+/-- `x in ERROR_CODES`: in pycel an error value IS its text, so a cell is an error exactly when it is one of the
+    seven error values of `Val` or a text spelled like a live error code (`#GETTING_DATA` is one and has no `Err`
+    constructor).  Any other text — `#TODO`, `#REF`, `#N/A ` with a space, `#n/a`, `#EMPTY!` — is plain text. -/
+def isErrCell : Val → Bool
+  | .err _ => true
+  | .str s => errorTexts.contains s
+  | _ => false
 
 def numOf? : Val → Option Rat
   | .num q => some q
   | _ => none
 
-/-- `next((x for x in args if x in ERROR_CODES), None)` -/
-def firstErr (cs : List Val) : Option Err := (cs.filterMap errOf?).head?
+/-- `next((x for x in args if x in ERROR_CODES), None)`: the first error cell itself (the code returns that value) -/
+def firstErr (cs : List Val) : Option Val := cs.find? isErrCell
 
 /-- the cells that survive `not isinstance(a, bool)` and `isinstance(x, (int, float))`: numbers only -/
 def nums (cs : List Val) : List Rat := cs.filterMap numOf?
 
 /-- `_numerics(*args)` with the default `keep_bools=False`, identity `to_number` -/
-def numerics (cs : List Val) : Except Err (List Rat) :=
+def numerics (cs : List Val) : Except Val (List Rat) :=
   match firstErr cs with
   | some e => .error e
   | none => .ok (nums cs)
@@ -76,12 +85,12 @@ def natRat (n : Nat) : Rat := ((n : Int) : Rat)
 
 def sum_ (cs : List Val) : Val :=
   match numerics cs with
-  | .error e => .err e
+  | .error e => e
   | .ok data => .num (rsum data)
 
 def average (cs : List Val) : Val :=
   match numerics cs with
-  | .error e => .err e
+  | .error e => e
   | .ok data => if data.length = 0 then .err .div0 else .num (rsum data / natRat data.length)
 
 /-- `count` never consults `_numerics`: error cells are simply not numbers -/
@@ -89,13 +98,13 @@ def count (cs : List Val) : Val := .num (natRat (nums cs).length)
 
 def min_ (cs : List Val) : Val :=
   match numerics cs with
-  | .error e => .err e
+  | .error e => e
   | .ok [] => .num 0
   | .ok (x :: xs) => .num (minL x xs)
 
 def max_ (cs : List Val) : Val :=
   match numerics cs with
-  | .error e => .err e
+  | .error e => e
   | .ok [] => .num 0
   | .ok (x :: xs) => .num (maxL x xs)
 
@@ -189,7 +198,7 @@ def allSameShape : List Arr → Bool
 
 def sumproduct (args : List Arg) : Val :=
   match firstErr (cellsOf args) with
-  | some e => .err e
+  | some e => e
   | none =>
     if args.any isScalar then
       if args.all isScalar then
